@@ -36,6 +36,51 @@ Theorem C05_pre_failure_result : forall pret pgas e,
 Proof. intros. split; [discriminate|reflexivity]. Qed.
 Print Assumptions C05_pre_failure_result.
 
+(** EXACTLY ONCE, WITH THAT CALL'S DATA.  For every CALL that passes the entry checks and reaches a contract with
+    code while join points are on — at any depth, for every instruction semantics, Aspect behaviour and provider:
+    the pre join point is evaluated once, on the state right after the frame was opened, with the payload
+    (caller, callee, index of the node just added to the call tree, calldata as passed, value, gas supplied);
+    if it fails, neither the callee nor the post join point runs and the frame fails with the pre join point's
+    result; otherwise the callee runs once with the pre join point's leftover gas, then the post join point is
+    evaluated once with the same call data plus the callee's return data, error text and leftover gas, and its
+    result is merged into the frame's.  Nothing else happens in between.  Nested calls are instances of the same
+    statement inside [run_frame]; their events lie between this call's pre and post events (C18_events_balanced). *)
+Theorem C05_join_points_once_with_call_data : forall W M HT can_transfer transfer balance_of exists_acct create_account code_of collides get_nonce set_nonce acl_add set_code touch is_homestead is_eip158 is_berlin is_london max_code_size is_precompile precompile local_step init_machine keccak artela jp_on debug asp_logger bound aspect
+    fuel depth hint ps caller addr input gas value s r s',
+  do_call W M HT can_transfer transfer balance_of exists_acct create_account code_of collides get_nonce set_nonce acl_add set_code touch is_homestead is_eip158 is_berlin is_london max_code_size is_precompile precompile local_step init_machine keccak artela jp_on debug asp_logger bound aspect (S fuel) depth hint ps caller addr input gas value s = Some (r, s') ->
+  let s1 := save_call W artela s caller (Some addr) input value gas in
+  let s2 := if exists_acct (xw s1) addr then s1 else set_w W s1 (create_account (xw s1) addr) in
+  let s3 := dbg_open W debug (transfer_recorded W transfer balance_of artela s2 caller addr value) depth 0xf1 caller addr false input gas (Some value) in
+  Nat.ltb max_depth depth = false ->
+  negb (value =? 0) && negb (can_transfer (xw s1) caller value) = false ->
+  negb (exists_acct (xw s1) addr) && negb (is_precompile addr) && is_eip158 && (value =? 0) = false ->
+  is_precompile addr = false ->
+  code_of (xw s3) addr <> [] ->
+  artela && jp_on = true ->
+  let idx := current_index (tc (xt s1)) in
+  let p0 := {| j_from := caller; j_to := addr; j_index := idx; j_data := input; j_value := value; j_gas := gas;
+               j_ret := []; j_errtext := ""%string |} in
+  exists pret pgas perr s4,
+    join_point W asp_logger bound aspect true caller addr input value p0 gas s3 = (pret, pgas, perr, s4) /\
+    match perr with
+    | Some e =>
+      r = pre_fail pret pgas e /\
+      s' = exit_call W artela (dbg_close W debug (set_w W s4 (xw s1)) depth r gas (r_gas r)) r
+    | None =>
+      let fc := {| f_self := addr; f_code_addr := addr; f_caller := caller; f_value := value; f_input := input;
+                   f_code := code_of (xw s3) addr; f_static := ps; f_create := false |} in
+      exists rb s5, run_frame W M HT can_transfer transfer balance_of exists_acct create_account code_of collides get_nonce set_nonce acl_add set_code touch is_homestead is_eip158 is_berlin is_london max_code_size is_precompile precompile local_step init_machine keccak artela jp_on debug asp_logger bound aspect fuel depth hint fc pgas s4 = Some (rb, s5) /\
+        let p1 := {| j_from := caller; j_to := addr; j_index := idx; j_data := input; j_value := value;
+                     j_gas := r_gas rb; j_ret := r_ret rb;
+                     j_errtext := match r_err rb with Some e => verr_text e | None => ""%string end |} in
+        exists qret qgas qerr s6 s7,
+          join_point W asp_logger bound aspect false caller addr input value p1 (r_gas rb) s5 = (qret, qgas, qerr, s6) /\
+          tail W (xw s1) (post_merge rb qret qgas qerr) s6 = (r, s7) /\
+          s' = exit_call W artela (dbg_close W debug s7 depth r gas (r_gas r)) r
+    end.
+Proof. exact call_join_points_shape. Qed.
+Print Assumptions C05_join_points_once_with_call_data.
+
 Example C05_side_condition_inhabited : forall d fc m w,
   Forall (fun e => is_jp_event e = false) (step_events (s_step d fc m w)).
 Proof. exact s_step_no_jp. Qed.
